@@ -6,6 +6,7 @@
 import SlacModel.Stdlib
 import SlacModel.StdOrder
 import SlacModel.Time
+import SlacModel.TimeRfc
 set_option autoImplicit false
 namespace Slac
 namespace Registry
@@ -47,6 +48,8 @@ def builtin (cm : CaseMap) (off : Nat) (name : String) : Option (F N) :=
   | "is_leap_year" => some (tot Time.isLeapYear) | "year" => some (tot Time.year) | "month" => some (tot Time.month)
   | "day" => some (tot Time.day) | "hour" => some (tot Time.hour) | "minute" => some (tot Time.minute)
   | "second" => some (tot Time.second) | "millisecond" => some (tot Time.millisecond)
+  -- formatting only, and only under TZ=UTC (the check forces it); the parsing functions date_from_rfc* stay unmodelled
+  | "date_to_rfc3339" => some (tot TimeRfc.dateToRfc3339) | "date_to_rfc2822" => some (tot TimeRfc.dateToRfc2822)
   | _ => none
 
 end Registry
